@@ -1108,9 +1108,10 @@ Lemma nak_to_ack_refuted :
     e_done a' = [7] /\ e_deliv (sb s) = [].
 Proof. eexists. split; [vm_compute; reflexivity|]. cbn. repeat split; reflexivity. Qed.
 
-(** Why [Down] must be terminal. The CURRENT line engine goes on serving the line after its own
-    send failed, until the core's teardown reaches it, while the closing generation's delivery
-    path already drops frames. [closing_react] is that behaviour: the end answers as if idle but
+(** Why [Down] must be terminal. Before fix 2852a07 the line engine went on serving the line after
+    its own send failed, until the core's teardown reached it, while the closing generation's
+    delivery path already dropped frames (the engine now returns on ErrSendFailed, as the model
+    says). [closing_react] is that behaviour: the end answers as if idle but
     nothing reaches its handlers. Then a message can be ACK'd — its send returns nil — and lost. *)
 Definition closing_react (e : endst) (a : arrival) : endst :=
   let e' := react (set_ph e (match e_ph e with Down => Idle | p => p end)) a in
